@@ -287,6 +287,10 @@ class RefGateway:
             exp.id_response = "withheld"
             return
         if cand is None:
+            # silence is allowed when no id can be allocated; an id above every known / handed-out id can
+            taken = set(self.nodes) | set(self.handed_out)
+            if (max(taken) if taken else 0) < 254:
+                exp.id_response = "missing"
             return
         exp.id_response = cand[5]
         try:
